@@ -107,12 +107,78 @@ func (g *gradient) at(q oracle.Pt) (colour, bool) {
 	return c, true
 }
 
+// raster is a sampled image placed on the canvas: toPix takes a canvas point (mm, y up) to image
+// space (u,v) with u in [0,w] running along the rows and v in [0,h] counting rows from row 0, the
+// FIRST row of the pixel data (the top of the upright image). Pixel (i,j) is the cell
+// [i,i+1] x [j,j+1]. The display list paints every cell with its pixel's colour (no
+// interpolation: samples are only compared well inside a cell).
+type raster struct {
+	w, h    int
+	pix     []colour // straight colour and alpha, row-major
+	toPix   aff
+	corners [4]oracle.Pt // canvas positions of the image corners (0,0), (w,0), (w,h), (0,h) of image space: TL, TR, BR, BL
+	alpha   float64      // constant alpha on top
+	desc    string
+}
+
+func (im *raster) at(q oracle.Pt) (colour, bool) {
+	p := im.toPix.apply(q)
+	i, j := int(math.Floor(p.X)), int(math.Floor(p.Y))
+	if i < 0 || j < 0 || i >= im.w || j >= im.h {
+		return colour{}, false
+	}
+	c := im.pix[j*im.w+i]
+	c.a *= im.alpha
+	return c, true
+}
+
+// newRaster builds the raster from the map image space -> canvas mm.
+func newRaster(w, h int, pix []colour, fromPix aff, alpha float64, desc string) (*raster, bool) {
+	inv, ok := fromPix.inv()
+	if !ok {
+		return nil, false
+	}
+	im := &raster{w: w, h: h, pix: pix, toPix: inv, alpha: alpha, desc: desc}
+	fw, fh := float64(w), float64(h)
+	for k, c := range [4]oracle.Pt{{X: 0, Y: 0}, {X: fw, Y: 0}, {X: fw, Y: fh}, {X: 0, Y: fh}} {
+		im.corners[k] = fromPix.apply(c)
+	}
+	return im, true
+}
+
+// quad is the region covered by the raster.
+func (im *raster) quad(prefix string) region {
+	pl := oracle.Polyline{Closed: true, P: im.corners[:]}
+	return region{key: fmt.Sprintf("%s|quad %.9g", prefix, im.corners), pls: []oracle.Polyline{pl}}
+}
+
+// cellBorderBits marks the samples that are within margin (in cells) of a cell border of the
+// raster, and those outside the raster up to outer cells from its edge.
+func (im *raster) cellBorderBits(margin, outer float64) *bits {
+	b := &bits{}
+	for i, q := range samples {
+		p := im.toPix.apply(q)
+		if p.X < -outer || p.Y < -outer || p.X > float64(im.w)+outer || p.Y > float64(im.h)+outer {
+			continue
+		}
+		fx, fy := p.X-math.Floor(p.X), p.Y-math.Floor(p.Y)
+		if fx < margin || fx > 1-margin || fy < margin || fy > 1-margin || p.X < 0 || p.Y < 0 || p.X > float64(im.w) || p.Y > float64(im.h) {
+			b.set(i)
+		}
+	}
+	return b
+}
+
 type paint struct {
 	solid colour
 	grad  *gradient
+	img   *raster
 }
 
 func (p paint) at(q oracle.Pt) (colour, bool) {
+	if p.img != nil {
+		return p.img.at(q)
+	}
 	if p.grad != nil {
 		return p.grad.at(q)
 	}
@@ -120,6 +186,9 @@ func (p paint) at(q oracle.Pt) (colour, bool) {
 }
 
 func (p paint) String() string {
+	if p.img != nil {
+		return "image " + p.img.desc
+	}
 	if p.grad != nil {
 		return "gradient " + p.grad.desc
 	}
@@ -136,7 +205,7 @@ type region struct {
 }
 
 type item struct {
-	role  string // "fill", "stroke" (natively stroked), "stroke-outline" (explicit outline painted as a fill)
+	role  string // "fill", "stroke" (natively stroked), "image"
 	reg   region
 	clips []region
 	paint paint
